@@ -35,10 +35,13 @@ theorem failed_reply_leaves_nothing {cs cs' : CtxSt} {id : ReqId} {more : List M
   have a4 := h.fresh
   unfold handleReplyStep at hs
   split at hs
-  · simp at hs
+  · rename_i hnone
+    simp only [Option.some.injEq, Prod.mk.injEq] at hs; obtain ⟨rfl, rfl, rfl⟩ := hs
+    exact ⟨rfl, rfl, hnone, fun pid po h1 => by rw [hnone] at h1; simp at h1⟩
   · rename_i pid hpid
     split at hs
-    · simp at hs
+    · rename_i hnone
+      exact absurd hnone (h.byId_some id pid hpid)
     · rename_i po hpo
       have hlt : id < cs.nextReq := by
         rcases Nat.lt_or_ge id cs.nextReq with hlt | hge
